@@ -24,7 +24,7 @@ type c16Case struct {
 	Hist    []PktSpec `json:"history"`
 }
 
-var c16Outcomes = []string{"accepted", "accepted-close", "accepted-host-data", "wrong-phase-0", "wrong-phase-1", "wrong-phase-2", "wrong-phase-3", "rejected-cookie", "denied-host", "unreachable-host", "caps-mismatch"}
+var c16Outcomes = []string{"accepted", "accepted-close", "accepted-host-data", "wrong-phase-0", "wrong-phase-1", "wrong-phase-2", "wrong-phase-3", "rejected-cookie", "denied-host", "unreachable-host", "caps-mismatch", "caps-none-offered"}
 
 func genRedirect(t *rapid.T) protocol.RedirectFlags {
 	m := rapid.IntRange(0, 127).Draw(t, "redirMask")
@@ -76,6 +76,9 @@ func scriptHistory(o gwOpts, outcome string) []PktSpec {
 			tc.Cookie = "valid:C"
 		}
 		h = []PktSpec{hs, tc, ta, cc}
+	case "caps-none-offered": // the client offers no mechanism at all (a mismatch unless the server requires none either)
+		hs.Caps = 0
+		h = []PktSpec{hs, tc}
 	case "caps-mismatch":
 		hs.Caps = ^caps & 0x7
 		if caps == 0 {
